@@ -178,15 +178,30 @@ def run_dist(ctx, cfg):
     b, w, c = cfg
     hs = digests(cfg)
     objs = [mk(cfg).from_hash(h) for h in hs]
+    # digest objects that come from data: finalized only (digest() never called), and objects that were called
+    src = {}
+    for l in (50, 256, 300, 700, 1500):
+        for name in ('text', 'exp', 'ramp', 'tri'):
+            d = RL.tlsh(CONTENT[name](l), b, w, c, True)
+            if d is not None:
+                src.setdefault(d, CONTENT[name](l))
+    fin = [mk(cfg).final(src[h], True) for h in hs]
+    called = []
+    for h in hs:
+        o = mk(cfg)
+        o(src[h], True)
+        called.append(o)
     for i, x in enumerate(hs):
         for j, y in enumerate(hs):
             r = [ctx.attempt(distance, x, y), ctx.attempt(distance, y, x), ctx.attempt(distance, objs[i], objs[j]),
-                 ctx.attempt(distance, objs[i], y), ctx.attempt(distance, x, objs[j]), ctx.attempt(objs[i].distance_to, objs[j])]
+                 ctx.attempt(distance, objs[i], y), ctx.attempt(distance, x, objs[j]), ctx.attempt(objs[i].distance_to, objs[j]),
+                 ctx.attempt(distance, fin[i], fin[j]), ctx.attempt(fin[i].distance_to, fin[j]), ctx.attempt(distance, fin[i], y),
+                 ctx.attempt(distance, called[i], called[j]), ctx.attempt(distance, called[i], fin[j]), ctx.attempt(distance, objs[i], fin[j])]
             ok = all(v[0] == 'ok' and isinstance(v[1], int) and not isinstance(v[1], bool) and v[1] >= 0 for v in r)
             ctx.ok('C19/tlsh/distance/non-negative-integer', ok, r)
             if ok:
                 ctx.eq('C19/tlsh/distance/symmetric', r[0][1], r[1][1])
-                ctx.eq('C19/tlsh/distance/object-vs-bytes', [v[1] for v in r[2:]], [r[0][1]] * 4)
+                ctx.eq('C19/tlsh/distance/object-vs-bytes', [v[1] for v in r[2:]], [r[0][1]] * 10)
                 ctx.eq('C19/tlsh/distance/value', r[0][1], model_distance(x, y, c))
                 if i == j:
                     ctx.eq('C19/tlsh/distance/identical-is-zero', r[0][1], 0)
